@@ -277,6 +277,10 @@ type zzCluster struct {
 	foreignRollbackAllowed bool
 	foreignRolledBack      bool
 	onePCAllowed           bool
+	noForeignResolver      bool     // the foreign-resolver event is not part of the script
+	regionErrorsOnly       bool     // the script may only inject retryable region errors (no lost messages)
+	lockOutcomes           bool     // pessimistic lock outcomes are chosen by the script
+	everLocked             [][]byte // keys that ever carried a pessimistic lock of the transaction
 	primary                []byte // the transaction under test (for the foreign-resolver event)
 	startTS                uint64
 	unmodelled             bool
@@ -420,6 +424,84 @@ func (c *zzCluster) prewrite(r *kvrpcpb.PrewriteRequest) *kvrpcpb.PrewriteRespon
 	return resp
 }
 
+// pessimistic lock outcomes chosen by the script
+const (
+	zzLockOK = iota
+	zzLockWriteConflict
+	zzLockKeyExists
+	zzLockDeadlock
+	zzLockWithConflict // force-lock mode only: locked although a newer version exists
+	zzNumLockOutcomes
+)
+
+// pessimisticLock models TiKV's acquire-pessimistic-lock command: the request
+// is one atomic command — if it fails for any key, no key of it is locked.
+func (c *zzCluster) pessimisticLock(r *kvrpcpb.PessimisticLockRequest) *kvrpcpb.PessimisticLockResponse {
+	resp := &kvrpcpb.PessimisticLockResponse{}
+	force := r.WakeUpMode == kvrpcpb.PessimisticLockWakeUpMode_WakeUpModeForceLock
+	outcome := zzLockOK
+	if c.lockOutcomes {
+		name := "lock"
+		if len(r.Mutations) > 0 {
+			name += "." + string(r.Mutations[0].Key)
+		}
+		outcome = zzChoice(name, zzNumLockOutcomes)
+		if outcome == zzLockWithConflict && !force {
+			zzAssume(false)
+		}
+	}
+	// an own lock already present is simply kept (idempotent)
+	var keyErr *kvrpcpb.KeyError
+	k0 := r.Mutations[0].Key
+	switch outcome {
+	case zzLockWriteConflict:
+		keyErr = &kvrpcpb.KeyError{Conflict: &kvrpcpb.WriteConflict{StartTs: r.StartVersion, ConflictTs: r.ForUpdateTs + 1,
+			ConflictCommitTs: r.ForUpdateTs + 2, Key: k0, Primary: r.PrimaryLock, Reason: kvrpcpb.WriteConflict_PessimisticRetry}}
+	case zzLockKeyExists:
+		keyErr = &kvrpcpb.KeyError{AlreadyExist: &kvrpcpb.AlreadyExist{Key: k0}}
+	case zzLockDeadlock:
+		keyErr = &kvrpcpb.KeyError{Deadlock: &kvrpcpb.Deadlock{LockTs: r.StartVersion + 1, LockKey: k0, DeadlockKeyHash: 12345}}
+	}
+	if keyErr != nil {
+		resp.Errors = []*kvrpcpb.KeyError{keyErr}
+		if force {
+			resp.Results = []*kvrpcpb.PessimisticLockKeyResult{{Type: kvrpcpb.PessimisticLockKeyResultType_LockResultFailed}}
+		}
+		return resp
+	}
+	fut := r.ForUpdateTs
+	if outcome == zzLockWithConflict {
+		fut = r.ForUpdateTs + 5
+	}
+	for _, m := range r.Mutations {
+		ks := c.key(m.Key)
+		if ks.lock != nil && ks.lock.startTS == r.StartVersion {
+			if ks.lock.op == kvrpcpb.Op_PessimisticLock && ks.lock.forUpdateTS < fut {
+				ks.lock.forUpdateTS = fut
+			}
+			continue
+		}
+		ks.lock = &zzLock{startTS: r.StartVersion, primary: r.PrimaryLock, op: kvrpcpb.Op_PessimisticLock, ttl: r.LockTtl, forUpdateTS: fut}
+		c.everLocked = append(c.everLocked, append([]byte(nil), m.Key...))
+	}
+	if force {
+		res := &kvrpcpb.PessimisticLockKeyResult{Type: kvrpcpb.PessimisticLockKeyResultType_LockResultNormal, Existence: true, Value: []byte("old")}
+		if outcome == zzLockWithConflict {
+			res.Type = kvrpcpb.PessimisticLockKeyResultType_LockResultLockedWithConflict
+			res.LockedWithConflictTs = fut
+		}
+		resp.Results = []*kvrpcpb.PessimisticLockKeyResult{res}
+		return resp
+	}
+	if r.ReturnValues || r.CheckExistence {
+		for range r.Mutations {
+			resp.Values = append(resp.Values, []byte("old"))
+			resp.NotFounds = append(resp.NotFounds, false)
+		}
+	}
+	return resp
+}
+
 func (c *zzCluster) commit(r *kvrpcpb.CommitRequest) *kvrpcpb.CommitResponse {
 	resp := &kvrpcpb.CommitResponse{}
 	for _, k := range r.Keys {
@@ -531,15 +613,20 @@ func (c *zzClient) SendRequest(ctx context.Context, addr string, req *tikvrpc.Re
 	rpc := zzRPC{cmd: req.Type, req: req, regionID: req.Context.GetRegionId()}
 	ev := zzEvOK
 	if cl.faults > 0 && (cl.allowFaultOn == nil || cl.allowFaultOn(req.Type)) {
+		// the events that make sense for this request in the current store state
+		allowed := []int{zzEvOK, zzEvServerBusy, zzEvFakeEpoch}
+		if !cl.regionErrorsOnly {
+			allowed = append(allowed, zzEvLostRequest, zzEvLostResponse, zzEvUndeterminedRegionErr)
+			if req.Type == tikvrpc.CmdCommit {
+				allowed = append(allowed, zzEvCommitTsExpired)
+			}
+		}
+		if !cl.noForeignResolver && cl.primary != nil && cl.lockedBy(cl.primary, cl.startTS) {
+			allowed = append(allowed, zzEvForeignResolve)
+		}
 		// the draw is named after the request it decides, so that a native replay
-		// (where batches run on real goroutines) matches it regardless of order
-		ev = zzChoice(cl.eventName(req), zzNumEvents)
-		if ev == zzEvCommitTsExpired && req.Type != tikvrpc.CmdCommit {
-			zzAssume(false)
-		}
-		if ev == zzEvForeignResolve && (cl.primary == nil || !cl.lockedBy(cl.primary, cl.startTS)) {
-			zzAssume(false)
-		}
+		// matches it regardless of the order in which goroutines send
+		ev = allowed[zzChoice(cl.eventName(req), len(allowed))]
 		if ev != zzEvOK {
 			cl.faults--
 		}
@@ -601,12 +688,20 @@ func (c *zzClient) SendRequest(ctx context.Context, addr string, req *tikvrpc.Re
 			}
 		}
 		resp = &tikvrpc.Response{Resp: out}
+	case tikvrpc.CmdPessimisticLock:
+		r := req.PessimisticLock()
+		for _, m := range r.Mutations {
+			rpc.keys = append(rpc.keys, m.Key)
+		}
+		resp = &tikvrpc.Response{Resp: cl.pessimisticLock(r)}
 	case tikvrpc.CmdPessimisticRollback:
 		r := req.PessimisticRollback()
 		rpc.keys = r.Keys
 		for _, k := range r.Keys {
 			ks := cl.key(k)
-			if ks.lock != nil && ks.lock.startTS == r.StartVersion && ks.lock.op == kvrpcpb.Op_PessimisticLock {
+			// TiKV removes a pessimistic lock only if its for_update_ts does not exceed the request's
+			if ks.lock != nil && ks.lock.startTS == r.StartVersion && ks.lock.op == kvrpcpb.Op_PessimisticLock &&
+				ks.lock.forUpdateTS <= r.ForUpdateTs {
 				ks.lock = nil
 			}
 		}
